@@ -3,13 +3,14 @@
 package compaction
 
 import (
-	dsql "database/sql"
 	"context"
+	dsql "database/sql"
 	"io"
 	"os"
 	"path/filepath"
 	"sort"
 	"strings"
+	"time"
 
 	"github.com/basekick-labs/arc/internal/storage"
 	zz "github.com/basekick-labs/arc/internal/zzverif"
@@ -79,7 +80,27 @@ func (s *c09Store) ListObjects(ctx context.Context, prefix string) ([]storage.Ob
 
 // WriteReader: as FakeBackend's, plus (object stores without atomic put) a crash that
 // leaves a truncated object under the final key.
+// c09Ctx: the job's context (RunSubprocessJob runs the job under signal.NotifyContext): a
+// SIGTERM cancels it. In the harness the signal arrives right after the output upload.
+type c09Ctx struct{ cancelled *bool }
+
+func (c c09Ctx) Deadline() (time.Time, bool) { return time.Time{}, false }
+func (c c09Ctx) Done() <-chan struct{}       { return nil }
+func (c c09Ctx) Err() error {
+	if *c.cancelled {
+		return context.Canceled
+	}
+	return nil
+}
+func (c c09Ctx) Value(key interface{}) interface{} { return nil }
+
+var c09TermAfterUpload bool
+var c09Cancelled bool
+
 func (s *c09Store) WriteReader(ctx context.Context, path string, r io.Reader, size int64) error {
+	if c09TermAfterUpload && strings.HasSuffix(path, "_compacted.parquet") {
+		defer func() { c09Cancelled = true }()
+	}
 	if s.tornUploads && s.Crashes && zz.Choice("crash-mid-upload", 2) == 1 {
 		b, _ := io.ReadAll(r)
 		if len(b) > 1 {
@@ -90,13 +111,31 @@ func (s *c09Store) WriteReader(ctx context.Context, path string, r io.Reader, si
 	return s.FakeBackend.WriteReader(ctx, path, r, size)
 }
 
+// c09NoBatch hides DeleteBatch: a backend that is only a storage.Backend (plus ObjectLister),
+// so that Job.deleteOldFiles takes its per-file loop instead of the batch call.
+type c09NoBatch struct {
+	storage.Backend
+	inner *c09Store
+}
+
+func (s c09NoBatch) ListObjects(ctx context.Context, prefix string) ([]storage.ObjectInfo, error) {
+	return s.inner.ListObjects(ctx, prefix)
+}
+
+func c09Inner(b storage.Backend) *c09Store {
+	if nb, ok := b.(c09NoBatch); ok {
+		return nb.inner
+	}
+	return b.(*c09Store)
+}
+
 var c09Inputs = []string{"db/m/2024/01/01/00/a.parquet", "db/m/2024/01/01/00/b.parquet", "db/m/2024/01/01/00/c.parquet"}
 
 const c09Output = "OUTPUT-OF-ALL-INPUTS"
 
 // c09Download replaces (*Job).downloadFiles: every input still in storage is "downloaded".
 func c09Download(j *Job, ctx context.Context, tempDir string) ([]downloadedFile, error) {
-	st := j.StorageBackend.(*c09Store)
+	st := c09Inner(j.StorageBackend)
 	var out []downloadedFile
 	for _, k := range j.Files {
 		if b, ok := st.Files[k]; ok {
@@ -175,17 +214,29 @@ func VerifC09Job() {
 	for _, k := range c09Inputs[:n] {
 		st.Files[k] = []byte("rows-of-" + k)
 	}
-	mm := NewManifestManager(st, zerolog.Nop())
+	var backend storage.Backend = st
+	if zz.Bool("backend_without_batch_delete") {
+		backend = c09NoBatch{Backend: st, inner: st}
+	}
+	mm := NewManifestManager(backend, zerolog.Nop())
 	j := NewJob(&JobConfig{Measurement: "m", PartitionPath: "db/m/2024/01/01/00", Files: append([]string(nil), c09Inputs[:n]...),
-		StorageBackend: st, Database: "db", Tier: "hourly", TempDirectory: zz.TempPath("compaction"), Logger: zerolog.Nop(), ManifestManager: mm, JobID: "job1"})
-	if zz.Bool("crashes") {
+		StorageBackend: backend, Database: "db", Tier: "hourly", TempDirectory: zz.TempPath("compaction"), Logger: zerolog.Nop(), ManifestManager: mm, JobID: "job1"})
+	c09TermAfterUpload, c09Cancelled = false, false
+	switch zz.Choice("disturbance", 3) {
+	case 0:
 		st.Crashes = true
 		st.tornUploads = zz.Bool("torn_uploads")
-	} else {
+	case 1:
 		st.Faults = true
 		st.NoFault["read"] = true
+	default:
+		// the job process is asked to stop (SIGTERM): its context is cancelled once the
+		// output has been uploaded, the storage calls themselves keep working
+		c09TermAfterUpload = true
+		zz.Reach("terminated")
 	}
-	err, crashed := c09RunGuarded(func() error { return j.Run(context.Background()) })
+	err, crashed := c09RunGuarded(func() error { return j.Run(c09Ctx{cancelled: &c09Cancelled}) })
+	c09TermAfterUpload = false
 	st.Crashes, st.Faults = false, false
 	_ = err
 	if crashed {
